@@ -1,6 +1,8 @@
 import Driver.Util
 import NutsModel.C18.Policy
 import NutsModel.C18.Cache
+import NutsModel.C18.RCache
+import NutsModel.C18.LocalStore
 open Lean Nuts.Drv Nuts.C18 Nuts
 
 namespace Nuts.Drv.C18
@@ -42,6 +44,50 @@ def parseResp (j : Json) : Option Resp :=
   if st = 0 then none else
   some { status := st, mediaType := if jHas j "mt" then some (unhx (jStr j "mt")) else none,
          loc := unhx (jStr j "loc"), body := parseBodyJ j (jStr j "body") }
+
+/-! ### deepening round: the stateful response cache (`hc` ops, one cache instance per op) -/
+
+def posIn (all : List CEntry) (e : CEntry) : Nat :=
+  ((all.filter (fun x => x.key = e.key)).takeWhile (fun x => x.id ≠ e.id)).length
+
+def showCache (c : RCache) : String :=
+  s!"{c.size}/{String.intercalate "." (c.list.map (fun e => s!"{e.id}@{(e.exp + 5000).fdiv 10000 * 10}"))}/{String.intercalate "." (c.all.map (fun e => s!"{e.id}:{posIn c.all e}"))}"
+
+def maxCacheUnits : Int :=
+  match maxCacheMinutes Nuts.Facts.C18.maxCacheTimeExpr with
+  | some m => (m : Int) * 1000
+  | none => 0
+
+def hcSteps : RCache → List Json → List String → List String
+  | _, [], acc => acc.reverse
+  | c, j :: js, acc =>
+    let u := parseCUrl (jObj j "u")
+    let key := cacheKey u
+    let m := bytesOf (jStr j "m")
+    match jStr j "k" with
+    | "ins" =>
+      match c.insert key m u.query (jNat j "sz") (jInt j "exp") with
+      | .ok c' => hcSteps c' js (s!"ins:ok {showCache c'}" :: acc)
+      | _ => ("ins:hang" :: acc).reverse
+    | "get" =>
+      let (c', r) := c.get (jInt j "now") key m u.query
+      let o := match r with | some e => s!"get:hit{e.id}" | none => "get:miss"
+      hcSteps c' js (s!"{o} {showCache c'}" :: acc)
+    | "lnk" =>
+      let e : CEntry := { id := c.nextId, key := key, method := m, query := u.query, size := jNat j "sz", exp := jInt j "exp" }
+      let c' := { c with nextId := c.nextId + 1, all := c.all ++ [e], size := c.size + (e.size : Int),
+                         list := c.list.takeWhile (fun x => x.exp ≤ e.exp) ++ e :: c.list.dropWhile (fun x => x.exp ≤ e.exp) }
+      hcSteps c' js (s!"lnk {showCache c'}" :: acc)
+    | "pop" => let c' := c.pop; hcSteps c' js (s!"pop {showCache c'}" :: acc)
+    | "rt" =>
+      let a := jObj j "ans"
+      let inner : Inner := if jBool a "fail" then .fail else .resp (jNat a "sz") (if jHas a "ca" then some (jInt a "ca") else none)
+      match c.roundTrip (jInt j "now") maxCacheUnits key m u.query inner with
+      | (_, .hang) => ("rt:hang" :: acc).reverse
+      | (c', .hit e) => hcSteps c' js (s!"rt:hit{e.id} {showCache c'}" :: acc)
+      | (c', .net st) => hcSteps c' js (s!"rt:net:{st} {showCache c'}" :: acc)
+      | (c', .netErr) => hcSteps c' js (s!"rt:err {showCache c'}" :: acc)
+    | k => (("bad-step:" ++ k) :: acc).reverse
 
 structure St where
   methods : List Bytes := []
@@ -104,7 +150,10 @@ def step (st : St) (j : Json) : St × List String :=
       let srv : Nat → Req → Option Resp := fun hop _ => (resps[hop]?).join
       let hist := (jStrs j "hist").map (fun v => v != "deactivated" && v != "deactivated+")
       let orphanedLast := (jStrs j "hist").getLast? == some "orphaned"
-      let node : Node := { didMethods := st.methods, localState := fun _ => if jBool j "fault" then .dbError else sqlState hist, keyDecodes := fun _ => jBool j "keyok",
+      -- the node's table: the versions of this DID and of its case-variant siblings (`sib`); the lookup is `sqlLatest`
+      let sibRows := (jArr j "sib").flatMap fun sj => rowsOf (unhx (jStr sj "did")) ((jStrs sj "hist").map (fun v => v != "deactivated" && v != "deactivated+"))
+      let rows := sibRows ++ rowsOf d.str hist
+      let node : Node := { didMethods := st.methods, localState := fun x => if jBool j "fault" then .dbError else sqlLocalState rows 0 x, keyDecodes := fun _ => jBool j "keyok",
                            nutsState := fun _ => nutsStateOf' hist orphanedLast }
       let (reqs, out) := resolve dec cts factPolicy factLocalFirst st.strict node (jBool j "allow") d srv
       let o := match out with
@@ -112,6 +161,7 @@ def step (st : St) (j : Json) : St × List String :=
         | .err e => if e.startsWith "d2u:" then "err:d2u" else "err:" ++ e
         | .panic p => "panic:" ++ p
       s!"resolve reqs={reqs.length} out={o}"
+    | "hc" => "hc " ++ String.intercalate ";" (hcSteps (RCache.new (jInt j "max")) (jArr j "steps") [])
     | o => "bad-op:" ++ o
   (st, [line])
 
